@@ -75,9 +75,11 @@ package bungeecord
 //@ func (*bungeeCordMessageResponder).processIP
 //@   props C26
 //@   ghostpre
+//@   at-call RemoteAddr as ra: assert arg0 == r.player
+//@   at-call HostPort as hp: assert called(ra) && arg0 == res(ra)
 //@   at-call WriteUTF#1 as f1: assert streq(arg1, "IP")
-//@   at-call WriteUTF#2 as f2: assert called(f1) && streq(arg1, host)
-//@   at-call WriteInt32 as f3: assert called(f2) && arg1 == int32(port)
+//@   at-call WriteUTF#2 as f2: assert [the-requesters-own-address] called(f1) && called(hp) && streq(arg1, res(hp, 0))
+//@   at-call WriteInt32 as f3: assert called(f2) && arg1 == int32(res(hp, 1))
 //@   at-call sendServerResponse as send: assert called(f3)
 //@ func (*bungeeCordMessageResponder).processGetServer
 //@   props C26
